@@ -660,6 +660,7 @@ class Run:
         nontrivial = set()
         all_sched = set()
         candidates = {}  # sig -> Candidate (first occurrence)
+        cmp_pairs = []
         sig_counts = {}
         cover = set()
         iso_seen = {}
@@ -713,6 +714,7 @@ class Run:
                 base_hs, base = reps[0]
                 for j, res0 in enumerate(base):
                     plans_done += 1
+                    cmp_pairs.append((res0["index"], res0["cmp_digest"]))
                     sig = res0.get("sched_sig") or res0["plan_digest"]
                     all_sched.add(sig)
                     if res0["stats"].get("nontrivial"):
@@ -749,6 +751,9 @@ class Run:
             "i5_candidates": i5_candidates, "histories": self.histories,
             "batch_histories": self.batch_histories,
             "iso_pairs_compared": len(iso_seen), "det_sample": det_sample,
+            # one digest over the comparable logs of all plans: the same for any worker count,
+            # any assignment of plans to interpreters and any hash seeds (on a tree where I4 holds)
+            "cmp_aggregate": digest(sorted(cmp_pairs)),
         }
 
 
